@@ -1327,7 +1327,7 @@ class PackedTensor(TensorBase, _protocols.TensorProtocol, Generic[TArrayCompatib
                     "Please pack the value or use `onnx_ir.Tensor`."
                 )
             # Check after shape and dtype is set
-            if value.size != self.nbytes:
+            if value.nbytes != self.nbytes:
                 raise ValueError(
                     f"Expected the packed array to be {self.nbytes} bytes (from shape {self.shape}), but got {value.nbytes} bytes"
                 )
